@@ -41,6 +41,9 @@ func init() {
 	execs["c11.parse"] = execC11Parse
 	execs["c11.recv"] = execC11Recv
 	execs["c11.session"] = execC11Session
+	execs["c11.csend"] = execC11CSend
+	execs["c11.conc"] = execC11Conc
+	execs["c11.stress"] = execC11Stress
 	gens["C11"] = genC11
 }
 
@@ -780,6 +783,9 @@ func genC11(c *Ctx) {
 		// the quick tier: the extracted SHA-256 needs 1.6 s per 64 KiB)
 		c11Session(c, r, big, i == 0 || (c.Thorough() && i%50 == 1))
 	}
+
+	// --- several goroutines sending on one Connection
+	genC11Concurrent(c)
 
 	// --- the 8 MiB limit on the implementation only (the extracted model would need minutes)
 	if c.Thorough() {
